@@ -18,6 +18,7 @@ CONSTANTS
   ParseMemoAliased = FALSE
   CommaSeparates = FALSE
   RejectDrops = FALSE
+  MayAcceptedSplits = FALSE
   RejAt = {}
   RejThen = 0
   RejEditAt = {}
